@@ -130,7 +130,7 @@ bool Exec<Cfg>::ser_save(Op const& op) {
 		handled = dispatch_dim(av.D, [&](auto Dc) {
 			constexpr int D = decltype(Dc)::value;
 			auto          v = av.template make<D>();
-			if constexpr(D >= 2) {
+			if constexpr(D >= 1) {  // (D = 1: its own specialisation, which could not be saved at all before fix 00b610f)
 				if(op.var == 3) {  // through the read-only view type, which has its own serialize member
 					auto& cv = static_cast<multi::const_subarray<E, D, P>&>(v);
 					OpScope s;
